@@ -19,6 +19,7 @@ package nbs
 import (
 	"context"
 	"encoding/binary"
+	"errors"
 	"io"
 	"os"
 	"sort"
@@ -198,6 +199,10 @@ var verif_ghost struct {
 	dCacheHit   bool      // the has-cache vouched for the most recently looked-up address
 	dMtCount    uint32    // result of the most recent memTable.count
 
+	// single-writer protocol (C41)
+	jLockHeld bool // the most recent attempt to take the journal LOCK file succeeded
+	jReadOnly bool // result of the most recent journalManifest.readOnly()
+
 	bPutOK    bool      // CheckAndPutManifest returned nil
 	bReadLock hash.Hash // lock of the contents most recently read from the blobstore
 }
@@ -301,3 +306,9 @@ func verif_x_hasCache_Add(c *lru.TwoQueueCache[hash.Hash, struct{}], k hash.Hash
 func verif_x_hasCache_Get(c *lru.TwoQueueCache[hash.Hash, struct{}], k hash.Hash) (v struct{}, ok bool) {
 	return c.Get(k)
 }
+
+func verif_x_fslock_TryLock(l *fslock.Lock) (err error) { return l.TryLock() }
+
+func verif_x_errors_Is(err, target error) (ok bool) { return errors.Is(err, target) }
+
+func verif_x_fslock_New(path string) (l *fslock.Lock, err error) { return fslock.New(path) }
